@@ -616,7 +616,7 @@ class Gen:
         v = r.choice(vs) if vs else "K1"
         w = r.choice(vs) if vs else "K2"
         return r.choice(["2", "4", "2.0", "0.5", v, f"(1 + {v} * {w})", f"({v} + {r.choice(['1', '2', '3'])})",
-                         f"({v} * {r.choice(['2', '4', '0.5'])})", f"({v} - {w})"])
+                         f"({v} * {r.choice(['2', '4', '0.5'])})", f"({v} - {w})" if v != w else f"({v} + 1)"])
 
     def arith(self, vs, d):
         r = self.rng
@@ -702,6 +702,8 @@ class Gen:
             x = r.random()
             if x < 0.45 or d <= 0:
                 tgt = r.choice(LOCAL_POOL) if r.random() < 0.75 or not vs else r.choice(vs)
+                if r.random() < 0.03:
+                    tgt = "K1"  # a local that shadows a module constant
                 lines.append(f"{pad}{tgt} = {self.arith(vs, 2)}")
                 if tgt not in vs:
                     vs.append(tgt)
@@ -772,6 +774,8 @@ class Gen:
         r = self.rng
         k = r.choice([1, 1, 2, 2, 2, 3])
         params = r.sample(PARAM_POOL[:5], k) if r.random() < 0.7 else r.sample(PARAM_POOL, k)
+        if r.random() < 0.06:
+            params[-1] = r.choice(["K2", "HD"])  # a parameter that shadows a module constant
         style = r.choice(["ret", "ret", "assign", "mixed", "mixed"])
         body, _, ret = self.block(params, r.choice([0, 1, 1, 2, 2]), 1, False, style)
         if not ret and r.random() < 0.9:
@@ -896,6 +900,11 @@ def t_assign_both(a):
 
 def t_const(x):
     return x * K1 + hp.HC - HD
+
+
+def t_shadow(x, K2):
+    K1 = x + 1
+    return K1 * K2 - K3
 
 
 def t_call(a, b):
@@ -1069,8 +1078,22 @@ def evaluate_module(job):
                         vals.append("undef")
                 rec["vals"] = vals
             obs.append(rec)
+        needed = {k.split(":", 1)[1] for k in enc.prog if k.split(":", 1)[0] == job["mod"]}
         out.append({"fn": fname, "q": q, "prog": list(enc.prog.values()), "params": params, "features": sorted(enc.features),
+                    "min_src": minimal_source(job["sources"][job["mod"]], needed),
                     "points": [[rs(v) for v in p] for p in points], "py": pyv, "obs": obs, "src": fsrc})
+    return out
+
+
+def minimal_source(src: str, needed: set[str]) -> str:
+    """module header + only the function definitions in `needed` (for small replays)"""
+    tree = ast.parse(src)
+    lines = src.splitlines(keepends=True)
+    first = next((n.lineno for n in tree.body if isinstance(n, ast.FunctionDef)), len(lines) + 1)
+    out = "".join(lines[: first - 1])
+    for n in tree.body:
+        if isinstance(n, ast.FunctionDef) and n.name in needed:
+            out += "".join(lines[n.lineno - 1: n.end_lineno]) + "\n\n"
     return out
 
 
